@@ -111,11 +111,14 @@ impl Header {
   }
 
   pub fn create_cart_state(&self) -> Box<dyn CartState> {
+    // bank numbers selected by the guest are reduced to what the cartridge has
+    let rom_banks = self.get_rom_bank_count();
+    let ram_banks = std::cmp::max(1, self.get_ram_size_bytes() / 0x2000);
     match self.cart_type {
       0x00 => Box::new(NullCartState::new()),
-      0x01 | 0x02 | 0x03 => Box::new(MBC1CartState::new()),
+      0x01 | 0x02 | 0x03 => Box::new(MBC1CartState::new(rom_banks, ram_banks)),
       
-      0x11 | 0x12 | 0x13 => Box::new(MBC3CartState::new()),
+      0x11 | 0x12 | 0x13 => Box::new(MBC3CartState::new(rom_banks, ram_banks)),
 
       _ => panic!("Unsupported cart type"),
     }
@@ -175,15 +178,19 @@ pub struct MBC1CartState {
   ram_bank: usize,
   ram_enabled: bool,
   select_ram: bool,
+  rom_banks: usize,
+  ram_banks: usize,
 }
 
 impl MBC1CartState {
-  fn new() -> Self {
+  fn new(rom_banks: usize, ram_banks: usize) -> Self {
     MBC1CartState {
       rom_bank: 1,
       ram_bank: 0,
       ram_enabled: false,
       select_ram: false,
+      rom_banks,
+      ram_banks,
     }
   }
 }
@@ -211,12 +218,12 @@ impl CartState for MBC1CartState {
     if !self.select_ram {
       bank |= self.ram_bank << 5;
     }
-    bank
+    bank % self.rom_banks
   }
 
   fn get_ram_bank(&self) -> usize {
     if self.select_ram {
-      self.ram_bank
+      self.ram_bank % self.ram_banks
     } else {
       0
     }
@@ -235,14 +242,18 @@ pub struct MBC3CartState {
   rom_bank: usize,
   ram_bank: usize,
   ram_enabled: bool,
+  rom_banks: usize,
+  ram_banks: usize,
 }
 
 impl MBC3CartState {
-  pub fn new() -> Self {
+  pub fn new(rom_banks: usize, ram_banks: usize) -> Self {
     Self {
       rom_bank: 1,
       ram_bank: 0,
       ram_enabled: false,
+      rom_banks,
+      ram_banks,
     }
   }
 }
@@ -269,10 +280,10 @@ impl CartState for MBC3CartState {
     if bank == 0 {
       bank = 1;
     }
-    bank
+    bank % self.rom_banks
   }
 
   fn get_ram_bank(&self) -> usize {
-    self.ram_bank
+    self.ram_bank % self.ram_banks
   }
 }
